@@ -21,7 +21,7 @@ MANIFEST = {
     "technique": "exhaustive enumeration of write histories (all ordered partitions, one ragged write at every position) "
                  "and of every post-flush crash point, executed for real with SIGKILL, against an accepted-frames model",
     "text": "All 16 ordered partitions of 5 frames (thorough: n = 1..5) into write calls x 11 streaming formats (+ HDF5 append "
-            "mode) x {cell, no cell} x {time, no time} are written through the real file objects and compared after close "
+            "mode on an existing file and on a name that does not exist yet) x {cell, no cell} x {time, no time} are written through the real file objects and compared after close "
             "with the one-shot file (frames, times, cells, loaded with mdtraj). Cells also change SHAPE per frame (rectangular/sheared) where the format stores angles. One ragged write of each kind at every "
             "position of every partition must raise and leave a file holding exactly the accepted frames; then the caller closes, retries the same write (must be refused again) or continues with the well-formed writes (must equal one-shot). For HDF5, NetCDF, "
             "DCD, XTC and HDF5 append mode every (partition, k) crash point after write+flush is executed in a forked child that SIGKILLs itself; "
@@ -127,7 +127,7 @@ def _write_history(path, fmt, traj, blocks, cell, time, mode="w", ragged=None, c
                         writers.write_block(f, fmt, other, lo, lo + b, with_cell=cell, with_time=time, first=(bi == 0))
                     elif kind == "cell-drop":
                         writers.write_block(f, fmt, traj, lo, lo + b, with_cell=False, with_time=time, first=(bi == 0))
-                    elif kind == "cell-add":
+                    elif kind in ("cell-add", "late-cell"):
                         other = _traj(traj.n_atoms, True, 98)
                         other.xyz[:] = traj.xyz
                         writers.write_block(f, fmt, other, lo, lo + b, with_cell=True, with_time=time, first=(bi == 0))
@@ -168,7 +168,7 @@ def _write_history(path, fmt, traj, blocks, cell, time, mode="w", ragged=None, c
 
 def _fmt_jobs(quick):
     jobs = []
-    for fmt in FORMATS + ["h5-append"]:
+    for fmt in FORMATS + ["h5-append", "h5-afresh"]:
         base = fmt.split("-")[0]
         cells = [True] if base in NEEDS_CELL else ([False] if base in NO_CELL_FORMATS else [True, False])
         times = [True, False] if base in HAS_TIME_ARG and base != "dtr" else [True]   # dtr requires times
@@ -214,6 +214,9 @@ def incremental_job(args):
                         for b in blocks[1:]:
                             _write_history(p, base, traj[lo:lo + b], [b], cell, time, mode="a")
                             lo += b
+                    elif fmt == "h5-afresh":
+                        # one handle in mode 'a' on a name that does not exist yet (append mode creating the file)
+                        _write_history(p, base, traj, blocks, cell, time, mode="a")
                     else:
                         _write_history(p, base, traj, blocks, cell, time)
                     got = _load(p, base, top)
@@ -232,6 +235,11 @@ def incremental_job(args):
                 # ignored, the file cannot become ragged), xyz has no cell, lammpstrj/dtr always need one
                 if base in ("h5", "nc", "dcd", "xtc", "trr", "mdcrd", "gro"):
                     kinds.append("cell-drop" if cell else "cell-add")
+                if base == "pdb" and not cell:
+                    # PDB holds ONE CRYST1 header: a cell supplied with a later model cannot be stored for that model alone.
+                    # Whether the writer refuses it or ignores it is its choice; the frames accepted without a cell must not
+                    # come back WITH one (judged below as 'late-cell')
+                    kinds.append("late-cell")
                 # time is optional per file for these; xtc/trr/dtr always store a time (nothing ragged can result)
                 if base in ("h5", "nc", "gro"):
                     kinds.append("time-drop" if time else "time-add")
@@ -247,12 +255,26 @@ def incremental_job(args):
                         if after != "close":
                             rtag += "|then=" + after
                         try:
-                            accepted, outcome = _write_history(p, base, traj, blocks, cell, time, ragged=(pos, kind, after))
+                            accepted, outcome = _write_history(p, base, traj, blocks, cell, time, ragged=(pos, kind, after),
+                                                               mode="a" if fmt == "h5-afresh" else "w")
                         except Exception as e:  # noqa
                             what = "close after refused write" if after != "continue" else "a well-formed write (or close) after a refused write"
                             viol.append((rtag + "|close-raised", "%s raised %s: %s (blocks %s, refused at %d)" % (what, type(e).__name__, str(e)[:120], blocks, pos), rep2))
                             continue
                         ragged_stats[outcome.split(":")[0]] = ragged_stats.get(outcome.split(":")[0], 0) + 1
+                        if kind == "late-cell":
+                            try:
+                                got = _load(p, base, top)
+                                ok_frames = got.n_frames in (accepted, accepted + blocks[pos]) or after == "continue"
+                                if got.unitcell_lengths is not None or not ok_frames:
+                                    viol.append((rtag + "|late-cell-changes-earlier-frames", "a cell supplied with a later model (%s): the file now loads with "
+                                                 "cell %s for all %d frames, the first %d were written without one" % (
+                                                     outcome, None if got.unitcell_lengths is None else got.unitcell_lengths[0].tolist(), got.n_frames, accepted), rep2))
+                                else:
+                                    ok.add((n, tuple(blocks), pos, kind, after))
+                            except Exception as e:  # noqa
+                                viol.append((rtag + "|after-late-cell|file-no-longer-loads", "%s: %s" % (type(e).__name__, str(e)[:120]), rep2))
+                            continue
                         if outcome.startswith("accepted"):
                             viol.append((rtag + "|not-refused", "%s %s a write that makes the file ragged (%s at block %d of %s)" % (
                                 fmt, "accepted" if outcome == "accepted" else "refused once but accepted on the second attempt", kind, pos, blocks), rep2))
